@@ -259,7 +259,10 @@ def check_c05(prop, tier):
     # ---- streams
     cfgs = []
     for n in range(1, B["T_ms"] + 1):
-        for s in range(1, max(1, n - 1) + 2):     # one value above the clamp
+        # up to one value above the clamp; for small n up to n + 2, so that
+        # splits whose RAM (or DISK) count alone exceeds n - 1 are included
+        smax = n + 2 if n <= B["all_splits"] else max(1, n - 1) + 1
+        for s in range(1, smax + 1):
             if n <= B["all_splits"]:
                 splits = [(a, s - a) for a in range(0, s + 1)]
             else:
